@@ -531,6 +531,9 @@ func postprocessParsed(lookup objLookup) {
 			for _, c := range l {
 				if def, names, found := strings.Cut(c.parsed, cmdPart); found {
 					nl := strings.Fields(names)
+					if len(nl) > 11 {
+						errlog.Abort("Too many names (max. 11) in: %s", c.orig)
+					}
 					c.ref = nl
 					c.parsed =
 						def + cmdPart + strings.Repeat("$REF ", len(nl)-1) + "$REF"
